@@ -35,11 +35,12 @@ Definition key_eqb (a b : key) : bool :=
   match a, b with KF x, KF y => fkey_eqb x y | KS x, KS y => src_eqb x y | _, _ => false end.
 
 Inductive meth := Mname | Mppid | Mcpu_times | Mcpu_num | Muids | Mgids | Mnum_threads | Mnum_ctx
-                | Mmemory_info | Mmemory_full.
+                | Mmemory_info | Mmemory_full | Mmemory_maps.
 Definition meth_eqb (a b : meth) : bool :=
   match a, b with
   | Mname, Mname | Mppid, Mppid | Mcpu_times, Mcpu_times | Mcpu_num, Mcpu_num | Muids, Muids | Mgids, Mgids
-  | Mnum_threads, Mnum_threads | Mnum_ctx, Mnum_ctx | Mmemory_info, Mmemory_info | Mmemory_full, Mmemory_full => true
+  | Mnum_threads, Mnum_threads | Mnum_ctx, Mnum_ctx | Mmemory_info, Mmemory_info | Mmemory_full, Mmemory_full
+  | Mmemory_maps, Mmemory_maps => true
   | _, _ => false end.
 (* methods decorated with @memoize_when_activated in psutil/__init__.py *)
 Definition m_front (m : meth) : option fkey :=
@@ -51,7 +52,7 @@ Definition m_src (m : meth) : src :=
   | Mname | Mppid | Mcpu_times | Mcpu_num => Stat
   | Muids | Mgids | Mnum_threads | Mnum_ctx => Status
   | Mmemory_info => Statm
-  | Mmemory_full => Smaps
+  | Mmemory_full | Mmemory_maps => Smaps      (* memory_maps() builds a new list from the smaps text on every call *)
   end.
 (* _parse_stat_file, _read_status_file, _read_smaps_file are memoized; statm is read directly *)
 Definition memoized (s : src) : bool := negb (src_eqb s Statm).
